@@ -190,11 +190,14 @@ def load_call(tag, producer):
 def run(ctx):
     root = fresh_dir("selftest")
     table, unnoticed, inapplicable = [], [], []
+    n_states = n_trans = 0
     for name, tag, producer, muts in LAYERS:
         call = load_call(tag, producer)
         lines = [json.loads(l) for l in open(call["trace"]) if l.strip()]
         # very long traces: a prefix keeps the run short (mutations look for their first applicable event)
         base = tlc.validate_trace(call["module"], call["cfg"], "selftest_%s_base" % tag, call["trace"], timeout=1800, env=call["env"], heap=call.get("heap", "4g"))
+        n_states += base["distinct"]
+        n_trans += base["generated"]
         if not base["clean"]:
             raise ToolError("selftest: the unchanged trace of %s is not accepted cleanly (bad=%s unmatched=%s)" % (name, base["bad"][:2], base["unmatched"]))
         for k, (mname, fn, expect) in enumerate(muts):
@@ -206,6 +209,8 @@ def run(ctx):
             path = os.path.join(root, "%s_%d.ndjson" % (tag, k))
             open(path, "w").write("".join(json.dumps(e) + "\n" for e in m))
             r = tlc.validate_trace(call["module"], call["cfg"], "selftest_%s_%d" % (tag, k), path, timeout=1800, env=call["env"], heap=call.get("heap", "4g"))
+            n_states += r["distinct"]
+            n_trans += r["generated"]
             labels = sorted({l for _, ls in r["bad"] for l in ls})
             rejected = bool(r["bad"]) or r["unmatched"] is not None or bool(r["hard_errors"])
             as_expected = rejected and (not expect or any(l.startswith(expect) for l in labels) or (not labels and r["unmatched"] is not None))
@@ -219,7 +224,7 @@ def run(ctx):
     layers_without = sorted({n for n, _, _, ms in LAYERS} - {t["layer"] for t in table if t["result"] != "not applicable to this trace"})
     if layers_without:
         raise ToolError("selftest: no mutation applicable for %s" % layers_without)
-    cov = {"states": 0, "transitions": 0, "traces_validated_against_impl": len(table), "samples": table[:3], "table": table,
+    cov = {"states": n_states, "transitions": n_trans, "traces_validated_against_impl": len(table), "samples": table[:3], "table": table,
            "layers": len(LAYERS), "mutations_rejected": sum(1 for t in table if t["result"] == "rejected"), "mutations_not_applicable": len(inapplicable),
            "exhaustive": False,
            "rule": "every trace specification re-validates its last recorded trace unchanged (must be clean) and with one targeted corruption (must be rejected by the expected guard family)"}
